@@ -309,6 +309,9 @@ def _decide_layout(chk, rid, K, label, ly, fixed, PR, sc, sim, pk, where):
     nchild = len(slots_)
     if nchild == 1 and not any(it[0] == "tok" and it[1].strip() for it in ly.items):
         return False        # a transparent wrapper (MITL_ATOM, PROCESS_VAR): it has no text of its own
+    if not ly.items and ly.varargs:
+        chk.note("%s: print(%s) writes everything inside a loop the reader does not unroll - not decided" % (rid, KL))
+        return False
     if not "".join(it[1] for it in ly.items if it[0] == "tok").strip() and nchild == 0:
         chk.ob(rid, "%s|text" % KL, False,
                "expression_t::print writes nothing for %s, a kind the property grammar can build: str() of such a "
